@@ -185,6 +185,34 @@ func init() {
 		}
 		return "{UNSTABLE}"
 	})
+
+	// case: "<nreps> <declared features or -> <srv.script case...>": the REAL server (leg srv.script: one fresh
+	// process per run, so fresh map seeds and fresh scheduling) answers the same scripted session nreps times;
+	// observable: {STABLE} when all answers are identical, else {UNSTABLE}
+	register("c09.srvrep", func(line string) string {
+		f := strings.SplitN(line, " ", 3)
+		if len(f) < 3 {
+			return "BAD-CASE"
+		}
+		nreps, _ := strconv.Atoi(f[0])
+		first := ""
+		for run := 0; run < nreps; run++ {
+			o := legs["srv.script"](f[2])
+			if strings.HasPrefix(o, "CRASH") || strings.HasPrefix(o, "TIMEOUT") || strings.HasPrefix(o, "SETUP-ERROR") {
+				return o
+			}
+			if run == 0 {
+				first = o
+			} else if o != first {
+				fmt.Fprintf(os.Stderr, "c09.srvrep unstable:\n--- run 0\n%s\n--- run %d\n%s\n", first, run, o)
+				return "{UNSTABLE}"
+			}
+		}
+		if os.Getenv("VERIF_C09_DUMP") != "" {
+			fmt.Fprintf(os.Stderr, "c09.srvrep answer:\n%s\n", first)
+		}
+		return "{STABLE}"
+	})
 }
 
 // one fresh analysis of the directory, the way Initialize does it without a luahelper.json and all checks on
@@ -247,6 +275,20 @@ func c09RunProject(root string) string {
 					}
 					sort.Strings(ws)
 					lines = append(lines, fmt.Sprintf("%s|wsym|%d|%s", rel, ln+1, strings.Join(ws, ",")))
+				}
+			}
+			// the file a require("...") string opens (GetBestMatchReferFile behind go-to-definition on the string)
+			if k := strings.Index(text, `require("`); k >= 0 {
+				rest := text[k+9:]
+				if e := strings.Index(rest, `"`); e > 0 {
+					mod := strings.ReplaceAll(rest[:e], ".", "/")
+					ds := []string{}
+					for _, cand := range []string{mod + ".lua", mod + "/init.lua"} {
+						for _, d := range p.FindOpenFileDefine(file, cand) {
+							ds = append(ds, cand+"->"+strings.TrimPrefix(d.StrFile, root+"/"))
+						}
+					}
+					lines = append(lines, fmt.Sprintf("%s|open|%d|%s", rel, ln+1, strings.Join(ds, ",")))
 				}
 			}
 			off += len(text) + 1
